@@ -96,19 +96,22 @@ func (o *Outcome) Tick() { o.Checks++ }
 //
 //go:norace
 func (o *Outcome) Vio(oracle, sigFacts, format string, a ...any) {
-	simrt.RaceOff()
-	defer simrt.RaceOn()
 	sig := oracle
 	if sigFacts != "" {
 		sig += "/" + sigFacts
 	}
+	// fmt uses a sync.Pool: formatting inside a race-disabled region would drop the
+	// pool's edges and make later, unrelated uses of the pooled printer look racy
+	detail := fmt.Sprintf(format, a...)
+	simrt.RaceOff()
+	defer simrt.RaceOn()
 	for _, v := range o.Violations {
 		if v.Signature == sig {
 			return
 		}
 	}
 	if len(o.Violations) < 64 {
-		o.Violations = append(o.Violations, Violation{Oracle: oracle, Signature: sig, Detail: fmt.Sprintf(format, a...)})
+		o.Violations = append(o.Violations, Violation{Oracle: oracle, Signature: sig, Detail: detail})
 	}
 }
 
